@@ -240,10 +240,17 @@ class MapIterSpec(SeqSpec):
 
 class MapStreamSpec(SeqSpec):
     component = "mapstream"
-    imports = "From Juniper Require Import Common.Base Conc.GoLTS Conc.ParMap.\nImport MS."
+    imports = "From Juniper Require Import Common.Base Conc.GoLTS Conc.ParMap.\nFrom Juniper Require Conc.ParMapMatcher.\nImport MS."
+    # M: the matcher WITHOUT the channel-buffer sorting of MS.canon (ParMapMatcher.MSM.accepts_history_ws, proved sound:
+    # ms_ws_accepts_sound). The originally shipped MS.accepts_history sorts the buffer of channel c, which is not a
+    # symmetry of the model: it accepts a history no run produces (ms_accepts_sound_refuted) - too permissive, so it
+    # is kept only as an informational cross-check.
     preamble = ("Definition chk (c : cfg * list lab) : bool :=\n"
+                "  let '(cf, evs) := c in ParMapMatcher.MSM.accepts_history_ws (fun x => x * 3 + 7) cf evs.\n"
+                "Definition chk_sorted (c : cfg * list lab) : bool :=\n"
                 "  let '(cf, evs) := c in accepts_history (fun x => x * 3 + 7) cf evs.")
-    checkers = {"M": "chk"}
+    checkers = {"M": "chk", "sorted-buffer-matcher": "chk_sorted"}
+    informational = {"sorted-buffer-matcher"}
 
     def gen_one(self, rng):
         cfg = gen_params(rng)
